@@ -145,6 +145,7 @@ func (u *upgrader) Upgrade(ctx context.Context, t transport.Transport, maconn ma
 
 func (u *upgrader) upgrade(ctx context.Context, t transport.Transport, maconn manet.Conn, dir network.Direction, p peer.ID, connScope network.ConnManagementScope) (transport.CapableConn, error) {
 	if dir == network.DirOutbound && p == "" {
+		maconn.Close()
 		return nil, ErrNilPeer
 	}
 	var stat network.ConnStats
@@ -162,6 +163,7 @@ func (u *upgrader) upgrade(ctx context.Context, t transport.Transport, maconn ma
 		conn = pconn
 	} else if ipnet.ForcePrivateNetwork {
 		log.Error("tried to dial with no Private Network Protector but usage of Private Networks is forced by the environment")
+		conn.Close()
 		return nil, ipnet.ErrNotInPrivateNetwork
 	}
 
